@@ -794,3 +794,120 @@ func I13(rc *RC) {
 		}
 	}
 }
+
+// I3m: the multi-iterator's Reset restores what its steppers mutate. Next, NextValid and
+// NextInvalid write the exhaustion flag and the per-operand offsets of the MultIterator itself
+// (the stride blocks are rewound by their own Reset, rule I3); every path through
+// (*MultIterator).Reset writes each of those fields, directly or through a helper of the
+// receiver that does (helpers extracted from the steppers are followed one level).
+func I3m(rc *RC) {
+	rc.S.Declare("I3m", "multi-iterator reset: every path through MultIterator.Reset writes every field of the MultIterator that Next/NextValid/NextInvalid write (done, lastIndexArr), directly or through a helper method of the receiver", 1)
+	helperWrites := func(tree []*ir.Node) map[string]bool {
+		w := fieldsWritten(tree)
+		for _, n := range flatten(tree) {
+			for _, m := range regexp.MustCompile(`\$r\.([A-Za-z_]\w*)\(`).FindAllStringSubmatch(n.Head, -1) {
+				if _, ht, _, ok := iCanonText(rc, "tensor.(*MultIterator)."+m[1]); ok {
+					for f := range fieldsWritten(ht) {
+						w[f] = true
+					}
+				}
+			}
+		}
+		return w
+	}
+	mod := map[string]bool{}
+	for _, s := range []string{"Next", "NextValid", "NextInvalid"} {
+		_, tree, _, ok := iCanonText(rc, "tensor.(*MultIterator)."+s)
+		if !ok {
+			rc.S.Undec("I3m", "tensor.(*MultIterator)."+s, "-", "unresolved anchor")
+			return
+		}
+		for f := range helperWrites(tree) {
+			mod[f] = true
+		}
+	}
+	var req []string
+	for f := range mod {
+		req = append(req, f)
+	}
+	sort.Strings(req)
+	key := "tensor.(*MultIterator).Reset"
+	_, tree, pos, ok := iCanonText(rc, key)
+	if !ok {
+		rc.S.Undec("I3m", key, "-", "unresolved anchor")
+		return
+	}
+	paths, okp := ir.EnumPaths(tree, 256)
+	if !okp {
+		rc.S.Undec("I3m", key, pos, "too many paths")
+		return
+	}
+	var bad []string
+	for _, p := range paths {
+		w := helperWrites(p.Steps)
+		for _, f := range req {
+			if !w[f] {
+				bad = append(bad, fmt.Sprintf("field %s is not restored on the path [%s]", f, strings.Join(p.Guards, " && ")))
+			}
+		}
+	}
+	if len(req) == 0 {
+		rc.S.Undec("I3m", key, pos, "the steppers write no field of the multi-iterator")
+	} else if len(bad) > 0 {
+		sort.Strings(bad)
+		rc.S.Viol("I3m", key, pos, strings.Join(uniq(bad), "; ")).Sig = strings.Join(uniq(bad), "; ")
+	} else {
+		rc.S.Ok("I3m", key, pos, fmt.Sprintf("%d paths restore %v", len(paths), req))
+	}
+}
+
+// I14: direction first, then rewind. Reset positions the iterator for the direction it finds in
+// the reverse flag (first offset and coordinate 0 going forward, last offset and coordinate
+// shape-1 going backward). A method that changes the direction and rewinds must therefore write
+// the flag BEFORE it calls Reset: in the other order the iterator is positioned for the old
+// direction and walks off its end at the first step.
+func I14(rc *RC) {
+	rc.S.Declare("I14", "direction before rewind: in every iterator method that assigns the reverse flag and calls Reset on the same receiver, the assignment precedes the call on every path", 2)
+	for _, fi := range rc.P.SortedFuncs() {
+		if fi.Pkg != rc.P.Root || fi.Decl == nil || fi.Decl.Body == nil || fi.Decl.Recv == nil || !strings.Contains(fi.Key, "Iterator)") || strings.HasSuffix(fi.File, "_test.go") {
+			continue
+		}
+		_, tree := sCanon(rc, fi)
+		txt := ir.Render(tree)
+		if !strings.Contains(txt, "$r.reverse = ") || !strings.Contains(txt, "$r.Reset()") {
+			continue
+		}
+		pos := rc.P.Pos(fi.Decl.Pos())
+		paths, ok := ir.EnumPaths(tree, 500)
+		if !ok {
+			rc.S.Undec("I14", fi.Key, pos, "too many paths")
+			continue
+		}
+		bad := ""
+		for _, p := range paths {
+			set := false
+			for _, st := range p.Steps {
+				if (st.Kind == "store" || st.Kind == "let") && st.Target == "$r.reverse" {
+					set = true
+				}
+				if strings.Contains(st.Head, "$r.Reset()") && !set {
+					// is the flag written later on this path?
+					later := false
+					for _, st2 := range p.Steps {
+						if (st2.Kind == "store" || st2.Kind == "let") && st2.Target == "$r.reverse" {
+							later = true
+						}
+					}
+					if later {
+						bad = fmt.Sprintf("on the path [%s] Reset() runs before the direction flag is written", strings.Join(p.Guards, " && "))
+					}
+				}
+			}
+		}
+		if bad != "" {
+			rc.S.Viol("I14", fi.Key, pos, bad)
+		} else {
+			rc.S.Ok("I14", fi.Key, pos, "the direction is written before the iterator is rewound")
+		}
+	}
+}
